@@ -34,7 +34,8 @@ def conv(tokens):
 def run(ctx, n):
     m = ctx.mistune
     r = ctx.rng("doc-corr")
-    mds = {hw: m.create_markdown(renderer=None, hard_wrap=hw) for hw in (False, True)}
+    PX = ["strikethrough", "mark", "insert", "superscript", "subscript", "url"]
+    mds = {(px, hw): m.create_markdown(renderer=None, hard_wrap=hw, plugins=(PX if px else [])) for px in (False, True) for hw in (False, True)}
     cases, want = [], []
     for i in range(n):
         text = corr_block.gen_text(r)
@@ -43,16 +44,19 @@ def run(ctx, n):
         if r.random() < 0.15:
             text = text.replace("\n", r.choice(["\r\n", "\r"]))
         hw = r.random() < 0.2
+        px = r.random() < 0.4
+        if px and r.random() < 0.6:
+            text = text + r.choice(["a ~~b~~ ==c== ^^d^^ e^f^ g~h~ https://x.y/z.\n", "> ~~q *r*~~ and http://a.b\n", "- ==m [n](/u)== ^s\\ t^\n"])
         try:
-            got = conv(mds[hw](text))
+            got = conv(mds[(px, hw)](text))
         except RecursionError:
             continue
         except Exception:  # noqa
             got = ["error", "exception"]
-        cases.append(("doc", [text, hw]))
+        cases.append(("doc", [text, hw, px]))
         want.append(got)
     res = run_model(cases)
-    dis = [{"input": c[1][0], "hard_wrap": c[1][1], "model": mv, "impl": iv} for c, mv, iv in zip(cases, res, want) if mv != iv]
+    dis = [{"input": c[1][0], "hard_wrap": c[1][1], "plugins": c[1][2], "model": mv, "impl": iv} for c, mv, iv in zip(cases, res, want) if mv != iv]
     return {"evaluations": len(cases), "disagreements": dis[:20], "samples": [json.dumps(cases[0][1][0])[:200]]}
 
 
